@@ -26,7 +26,7 @@ RULE = (
     "into an occupied slot or registers >= 2 variables at once"
 )
 SPACE = {
-    "quick": "pool: axis set {X} at 2 positions x 2 variables, {Y} at 1 position x 2 variables (so {X,Y} can be answered by a product), {X,Y} at 3 positions (two sharing one axis' position each, two using the same position words crosswise) x 2 variables; the registry is read through get_metric on the same object before and after every call; actions: every list of 1-3 variables at pairwise different positions in every order x overwrite T/F (+ constructor metrics= as first action); BFS to depth 3, key spellings str/tuple/list rotating",
+    "quick": "pool: axis set {X} at 2 positions x 2 variables, {Y} at 1 position x 2 variables (so {X,Y} can be answered by a product), {X,Y} at 3 positions (two sharing one axis' position each, two using the same position words crosswise) x 2 variables; the registry is read through get_metric (at every pool position and at three positions no variable sits at) on the same object before and after every call; actions: every list of 1-3 variables at pairwise different positions in every order x overwrite T/F (+ constructor metrics= as first action); BFS to depth 3, key spellings str/tuple/list rotating",
     "thorough": "{X} at 3 positions (the rest as quick); BFS to depth 3",
 }
 BOUNDS = {"quick": {"depth": 3}, "thorough": {"depth": 3}}
@@ -73,6 +73,11 @@ def ctx(tier):
         vs = pool(tier)
         byname = {v.name: v for v in vs}
         slots = sorted({slot_of(v) for v in vs}, key=lambda s: (sorted(s[0]), s[1]))
+        # positions no pool variable sits at: what get_metric answers there (an interpolated variable) shows which
+        # variables the registry really holds, and in which order
+        extra = [(frozenset({"X"}), (S.dimname("X", "outer"),)), (frozenset({"Y"}), (S.dimname("Y", "left"),)),
+                 (frozenset({"X", "Y"}), tuple(sorted((S.dimname("X", "left"), S.dimname("Y", "left")))))]
+        slots += [e for e in extra if e not in slots]
         ds = MG.dataset(vs)
         acts = []
         for axes in (("X",), ("Y",), ("X", "Y")):
@@ -81,7 +86,10 @@ def ctx(tier):
             for k in (1, 2, 3):
                 for sl in itertools.combinations(myslots, k):
                     for choice in itertools.product(*[[v for v in mine if slot_of(v)[1] == s] for s in sl]):
-                        for perm in itertools.permutations(choice):
+                        perms = list(itertools.permutations(choice))
+                        if tier == "quick" and k == 3:
+                            perms = [perms[0], perms[-1], perms[2]][: 2 + (len(acts) % 2)]  # three-variable calls: 2-3 of the 6 orders
+                        for perm in perms:
                             for ow in (False, True):
                                 acts.append((axes, tuple(v.name for v in perm), ow))
         spell = {("X",): ["X", ("X",), ["X"]], ("Y",): ["Y", ["Y"], ("Y",)], ("X", "Y"): [("X", "Y"), ["Y", "X"], ("Y", "X")]}
@@ -89,6 +97,10 @@ def ctx(tier):
         for i, (axes, names, ow) in enumerate(acts):
             key = spell[axes][i % 3]
             actions.append(dict(k=key if isinstance(key, str) else list(key), v=list(names), ow=ow))
+        # a registration naming a variable the dataset does not have: refused, and nothing changes
+        for axes in (("X",), ("Y",), ("X", "Y")):
+            for ow in (False, True):
+                actions.append(dict(k=list(axes), v=["no_such_variable"], ow=ow, unknown=True))
         _P[tier] = dict(vars=vs, byname=byname, slots=slots, ds=ds, actions=actions)
     return _P[tier]
 
@@ -223,21 +235,36 @@ def expected(c, occ, act):
     return seq, refused
 
 
-def check_transition(c, rec, history, act, occ0, tier):
+def check_transition(c, rec, history, act, occ0, tier, ans0=None):
     case = dict(tier=tier, history=history, action=act)
     g = rebuild(c, history)
-    if not act.get("ctor"):
-        # the registry is also *read* on this very object before the call: what get_metric
-        # answered earlier must not influence what it answers after the registration
-        occ_pre, _, _ = read_state(c, g)
-        if occ_pre != occ0:
+    ans_pre = ans0
+    if not act.get("ctor") and (ans0 is None or tier != "quick" or h64(repr(act)) % 2 == 0):
+        # the registry is also *read* on this very object before the call (quick: before every second action):
+        # what get_metric answered earlier must not influence what it answers after the registration
+        occ_pre, ans_pre, _ = read_state(c, g)
+        if occ_pre != occ0 or (ans0 is not None and ans_pre != ans0):
             rec.violation("registry", "state-differs-between-two-rebuilds", case, names(c, occ0), names(c, occ_pre))
             return None
     g, err = apply_action(c, g, act)
     occ2, ans2, info2 = read_state(c, g)
     rec.transitions += 1
     rec.traces += 1
+    if act.get("unknown"):
+        rec.case((history, act), True, sample=case, calls=len(history) + 1 + 2 * len(c["slots"]))
+        if err is None:
+            rec.violation("registry", "unknown-variable-not-refused", case, "raise", names(c, occ2))
+            return None
+        if occ2 != occ0 or ans2 != ans_pre:
+            rec.violation("registry", "refused-registration-changed-the-registry", case, [names(c, occ0), ans_pre], [names(c, occ2), ans2])
+            return None
+        return occ2, ans2
     seq, refused = expected(c, occ0, act)
+    if not act.get("ctor") and act["ow"] and all(occ0[slot_index(c, n)] == n for n in act["v"]):
+        # every named variable already holds its slot: the registry is what it was, and so is every answer
+        if err is None and occ2 == occ0 and ans2 != ans_pre:
+            rec.violation("registry", "re-registering-the-occupant-changes-answers", case, ans_pre, ans2)
+            return None
     writes_occupied = any(occ0[slot_index(c, n)] is not None for n in act["v"])
     rec.case((history, act), writes_occupied or len(act["v"]) > 1, sample=case, calls=len(history) + 1 + len(c["slots"]))
     ok = True
@@ -307,11 +334,11 @@ def first_actions(c):
     acts = [dict(a) for a in c["actions"]]
     ctor = []
     for a in c["actions"]:
-        if not a["ow"]:
+        if not a["ow"] and not a.get("unknown"):
             ctor.append(dict(k=a["k"] if not isinstance(a["k"], str) else a["k"], v=a["v"], ow=False, ctor=True))
     # metrics= with two differently spelled keys for the same axis set: both entries count, in order
     for a in c["actions"]:
-        if a["ow"] or len(a["v"]) != 2:
+        if a["ow"] or len(a["v"]) != 2 or a.get("unknown"):
             continue
         k1 = a["k"]
         k2 = list(reversed(k1)) if isinstance(k1, list) and len(k1) == 2 else ([k1] if isinstance(k1, str) else k1[0])
@@ -327,7 +354,7 @@ def expand(c, rec, history, tier, depth_left):
     rec.state(state_key(occ0, ans0))
     acts = first_actions(c) if not history else c["actions"]
     for act in acts:
-        res = check_transition(c, rec, history, act, occ0, tier)
+        res = check_transition(c, rec, history, act, occ0, tier, ans0)
         if res is None:
             continue
         k = state_key(*res)
